@@ -141,6 +141,9 @@ func orderAndCopies(e *Env) {
 	// after an early end the same client may connect again: nothing of the first
 	// connection may be delivered once its DISCONNECTED has been
 	second := early != 0 && g.Bool()
+	pollReconnect := second && g.Pct(40)
+	pollDone := false
+	var pollErr error
 	n2 := 0
 	if second {
 		n2 = g.Range(1, 30)
@@ -347,6 +350,26 @@ func orderAndCopies(e *Env) {
 		e.Violation("harness-connect", "Connect failed: %v", err)
 		return
 	}
+	if pollReconnect {
+		// an application that reconnects as soon as Connected() turns false,
+		// i.e. possibly while the old connection's last handler is still running
+		e.S.Count("fault.reconnect-by-polling-connected")
+		e.S.Spawn("reconnect-poller", func() {
+			if !simrt.BlockFor("reconnect-poller", "something to end the connection", 3*time.Hour, func() bool { return causeBegun }) {
+				pollDone = true
+				return
+			}
+			for k := 0; s.c.Connected(); k++ {
+				simrt.Sleep(time.Duration(1+e.S.Choose(3)) * 500 * time.Microsecond)
+				if e.S.Failed() || k > 100000 {
+					pollDone = true
+					return
+				}
+			}
+			pollErr = s.c.Connect()
+			pollDone = true
+		})
+	}
 	if early == 1 {
 		e.S.Spawn("closer", func() {
 			simrt.Sleep(time.Duration(g.S.Choose(40)) * 50 * time.Millisecond)
@@ -365,12 +388,25 @@ func orderAndCopies(e *Env) {
 	} else {
 		simrt.BlockFor("dispatch", "DISCONNECTED", time.Hour+longBudget, func() bool { return len(discEnter) > 0 })
 		simrt.Settle(10 * time.Second)
-		if second && len(discEnter) > 0 {
-			e.S.Count("fault.reconnect-after-early-end")
-			if err := s.c.Connect(); err != nil {
-				e.Violation("harness-connect", "reconnect failed: %v", err)
+		if pollReconnect && len(discEnter) > 0 {
+			if !simrt.BlockFor("dispatch", "the polling task's Connect to return", time.Hour, func() bool { return pollDone }) {
+				e.Violation("harness-connect", "the task that reconnects as soon as Connected() is false did not return from Connect\n%s", e.S.TaskDump())
 				return
 			}
+			if pollErr != nil {
+				e.Violation("harness-connect", "reconnect by the polling task failed: %v", pollErr)
+				return
+			}
+		}
+		if second && len(discEnter) > 0 {
+			e.S.Count("fault.reconnect-after-early-end")
+			if !pollReconnect {
+				if err := s.c.Connect(); err != nil {
+					e.Violation("harness-connect", "reconnect failed: %v", err)
+					return
+				}
+			}
+
 			simrt.BlockFor("dispatch", "second stream sent", time.Hour, func() bool { return sent2 })
 			simrt.Settle(time.Duration(n2)*3*time.Second + 30*time.Second + longBudget)
 			s.c.Close()
@@ -534,12 +570,17 @@ func misbehave(e *Env) {
 		o.Sasl = sasl.NewPlainClient("", "user", "pw")
 		o.Caps = []string{"sasl"}
 	}
-	if customRecover {
-		o.Recover = func(c *client.Conn, l *client.Line) {
-			if r := recover(); r != nil {
-				recovered = append(recovered, rcall{seqOf(l), l.Cmd, fmt.Sprint(r)})
-			}
+	recoverFn := func(c *client.Conn, l *client.Line) {
+		if r := recover(); r != nil {
+			recovered = append(recovered, rcall{seqOf(l), l.Cmd, fmt.Sprint(r)})
 		}
+	}
+	// the recovery function is configured either before the client exists or,
+	// through Config(), once all handlers have been registered: "the configured
+	// function" is the one in the configuration when the panic happens
+	lateRecover := customRecover && g.Bool()
+	if customRecover && !lateRecover {
+		o.Recover = recoverFn
 	}
 	s := startSession(e, g.Knobs(o), func(l *simnet.Link) { l.ChunkMode = g.Intn(4); l.Window = []int{0, 0, 0, 16, 64, 300}[g.Intn(6)] })
 	e.Log.Keep = true
@@ -639,6 +680,10 @@ func misbehave(e *Env) {
 	endAfter := g.Intn(n + 1)
 	disconnected := false
 	s.c.HandleFunc(client.DISCONNECTED, func(*client.Conn, *client.Line) { disconnected = true })
+	if lateRecover {
+		e.S.Count("probe.recovery-function-configured-after-the-handlers")
+		s.c.Config().Recover = recoverFn
+	}
 	if !s.connect() {
 		return
 	}
